@@ -11,7 +11,7 @@ RULE = ("(a) collector driven directly (allocate float/string/array, link x into
         "whole run is compared with VM.v (result graph, output, steps, ledger) and with Sem.v (a reclaimed-but-used "
         "value would change the result). non-trivial = distinct sequence / program that performs a collection")
 ASSUMPTIONS = ["address reuse by the system allocator is invisible to the model; the shadow heap quarantines released boxes instead",
-               "VM-level root completeness (vm_roots_complete) is not yet a theorem: it rests on the correspondence and the shadow heap for the explored programs"]
+               "VM-level root completeness is proved for the model (VMInv, vm_inv_step, vm_inv_run_loop: every value reachable from stack, globals, constants, frames and the pending result is live after every step); for the implementation it rests on the correspondence and the shadow heap for the explored programs"]
 NOTES = ["proved: run_no_fault, run_preserves_reachable, run_leaves_unmanaged, run_keeps_invariant, mark_fuel_suffices (collector, all heaps / root sets / cyclic graphs)"]
 
 
